@@ -3464,6 +3464,15 @@ class NameCheckVisitor(node_visitor.ReplacingNodeVisitor):
             out = annotate_value(out, [DefiniteValueExtension(definite_value)])
         if is_and:
             constraint = AndConstraint.make(reversed(out_constraints))
+            # The constraints of the operands are all in `constraint`. Drop them from
+            # the member values, or extract_constraints() would read them back as an
+            # OR of the operands' constraints when `constraint` is the null constraint.
+            out = unite_values(
+                *[
+                    unannotate_value(val, ConstraintExtension)[0]
+                    for val in flatten_values(out)
+                ]
+            )
             return annotate_with_constraint(out, constraint)
         else:
             # For OR conditions, no need to add a constraint here; we'll
